@@ -295,6 +295,70 @@ theorem C04_unsubmitted_exact (len h0 n : Nat) (hw : WfLen len) (mvs : List Mv) 
   have := h.wf.2
   exact wsub_exact s.T s.H h.HT (by omega)
 
+/-! ### Entering the kernel (`Shared::enter`) -/
+
+/-- `consumeN n` is `n` kernel moves: every theorem above (stated for all lists
+of moves) covers states reached through `io_uring_enter` as well. -/
+theorem consumeN_eq_runMv (n : Nat) (s : St) :
+    consumeN n s = runMv s (List.replicate n .kernel) := by
+  induction n generalizing s with
+  | zero => rfl
+  | succ k ih => simp only [consumeN, List.replicate_succ, runMv, stepMv]; exact ih _
+
+theorem stepEnter_eq_runMv (s : St) :
+    (stepEnter s).1 = runMv s (List.replicate (unsubmitted s) .kernel) := by
+  simp only [stepEnter]; exact consumeN_eq_runMv _ _
+
+theorem consumeN_spec (n : Nat) (s : St) (h : s.H + n ≤ s.T) :
+    (consumeN n s).H = s.H + n ∧ (consumeN n s).T = s.T ∧
+      (consumeN n s).accepted = s.accepted := by
+  induction n generalizing s with
+  | zero => exact ⟨rfl, rfl, rfl⟩
+  | succ k ih =>
+    have hlt : s.H < s.T := by omega
+    have h1 : (stepKernel s).1.H = s.H + 1 := by simp [stepKernel, hlt]
+    have h2 := stepKernel_T s
+    have h3 := stepKernel_accepted s
+    have := ih (stepKernel s).1 (by omega)
+    simp only [consumeN]
+    refine ⟨by rw [this.1, h1]; omega, by rw [this.2.1, h2], by rw [this.2.2, h3]⟩
+
+/-- **Every accepted submission reaches the kernel.** When `Ring::poll` (or any
+other caller of `Shared::enter`) enters the kernel, the count it passes is the
+true number of published entries — for every value of the 32-bit counters —
+so after the call the kernel has copied *every* entry accepted so far, each
+exactly once, in order and untorn, and nothing is left behind in the queue. -/
+theorem C04_enter_submits_all (len h0 n : Nat) (hw : WfLen len) (mvs : List Mv) :
+    let s := runMv (init len h0 n) mvs
+    let s' := (stepEnter s).1
+    unsubmitted s = s.T - s.H ∧ s'.H = s.T ∧ s'.T = s.T ∧ s'.accepted = s.accepted ∧
+      s'.consumed = s.accepted.map some := by
+  intro s s'
+  have h : Inv h0 s := C04_invariant len h0 n hw mvs
+  have hu : unsubmitted s = s.T - s.H := by
+    have := h.TH
+    have := h.wf.2
+    exact wsub_exact s.T s.H h.HT (by omega)
+  have hsp := consumeN_spec (unsubmitted s) s (by have := h.HT; omega)
+  have hs' : s' = consumeN (unsubmitted s) s := rfl
+  have h' : Inv h0 s' := by
+    rw [hs', consumeN_eq_runMv]
+    exact inv_runMv h _
+  have hH : s'.H = s.T := by rw [hs', hsp.1, hu]; have := h.HT; omega
+  have hA : s'.accepted = s.accepted := by rw [hs', hsp.2.2]
+  refine ⟨hu, hH, by rw [hs', hsp.2.1], hA, ?_⟩
+  rw [h'.cons, hH, hA]
+  have := h.acc
+  rw [List.take_of_length_le (by omega)]
+
+/-- `tail.saturating_sub(head)` instead of `wrapping_sub` (a seeded change, and the
+shape of the defect repaired by 38373ef) is wrong exactly after the tail word wrapped:
+one entry is published, the count passed to the kernel would be 0. -/
+theorem C04_saturating_sub_loses :
+    let s := runMv (init 2 4294967295 1) (List.replicate 8 (.thr 0))
+    s.accepted = [0] ∧ s.T - s.H = 1 ∧ unsubmitted s = 1 ∧ tail32 s - head32 s = 0 := by
+  decide
+
 /-- The locked check is exact. A thread at `a5 hd` loaded `hd` from an absolute
 head `H'` (`h0 ≤ H' ≤ H`, `hd = H' % 2^32`) with `T − H' ≤ len`; its step
 answers `full` iff `T − H' = len` (the queue was full when `hd` was loaded — `T`
